@@ -58,6 +58,19 @@ func Shapes() []Shape {
 			spec.Extensions = keep
 		}}},
 	)
+	// ClientHellos that fill their TLS record to (nearly) the 2^14 limit: the padding extension is sized so that the
+	// handshake message is exactly `total` bytes long
+	for _, total := range []int{16384, 16381, 16379} {
+		total := total
+		name := fmt.Sprintf("chrome102-record-%d", total)
+		out = append(out, Shape{name, bubble.Hello{Name: name, ID: id(utls.HelloChrome_102), SNI: "localhost", Mutate: func(spec *utls.ClientHelloSpec) {
+			for _, e := range spec.Extensions {
+				if p, ok := e.(*utls.UtlsPaddingExtension); ok {
+					p.GetPaddingLen = func(unpadded int) (int, bool) { return total - unpadded - 4, true }
+				}
+			}
+		}}})
+	}
 	return out
 }
 
@@ -105,7 +118,7 @@ func deliverHello(cl *bubble.Client, mode string) {
 func SeamB(t *testing.T, rep *ev.Report, prop, header string, ref Ref, shard, of int) {
 	shapes := Shapes()
 	if !ev.Thorough() {
-		shapes = []Shape{shapes[0], shapes[1], shapes[3], shapes[6], shapes[10], shapes[12], shapes[13]}
+		shapes = []Shape{shapes[0], shapes[1], shapes[3], shapes[6], shapes[10], shapes[12], shapes[13], shapes[14], shapes[15]}
 	}
 	job := 0
 	for _, set := range []string{"default", "default+custom"} {
